@@ -80,6 +80,8 @@ def parseDump (obs : String) : Dump :=
     memAt := (get fs "ntf").map (fun x => match x.splitOn ":" with | [_, _, _, _, m] => nat! m | _ => 0),
     pres := get1 fs "pres", pbest := nat! (get1 fs "pbest"), pbl := (get fs "pbl").map parseNode,
     pseen := nat! (get1 fs "pseen"),
+    cs := get1 fs "cstip" != "", csbyh := (get fs "csbyh").map nat!, csbad := nat! (get1 fs "csbad"),
+    cstip := if get1 fs "cstip" == "E" || get1 fs "cstip" == "" then none else some (parseNode (get1 fs "cstip")),
     storedAt := (get fs "ntf").map (fun x => match x.splitOn ":" with | ["D", _, _, _, st] => st == "1" | _ => false),
     pre := (get fs "pre").map (fun x => match x.splitOn ":" with | [v, h, i] => (v == "1", nat! h, nat! i) | _ => (false, 0, 0)) }
 
@@ -149,7 +151,8 @@ def runCase : CaseFn := fun c => Id.run do
           for pid in ["C01", "C02", "C19"] do out := out.push s!"DIFF {pid} case {c.num} line {ln}: init {txt}"
           diverged := true
     else if ws.head? == some "headersfrb" then
-      -- a reorganisation in which one RollbackLastBlock was made to fail: oracle only, the case ends here
+      -- a reorganisation in which one RollbackLastBlock was made to fail: oracle only; the code as it
+      -- is panics and the case ends here, code that survives is judged by the oracles from here on
       let p := nat! (ws.getD 1 "0")
       let ids := (bracket (ws.drop 2)).1.map nat!
       if dumpGood cfg prev then
